@@ -40,10 +40,10 @@ def build(s, labels=None, var=None):
     lab = labels or {k + 1: k for k in range(len(nodes))}
     meta = {"node": {}, "branch": {}, "chord": {}, "sink": {}, "eg": [], "branch_to": {}}
     for k, n in enumerate(nodes, start=1):
-        pp.create_junction(net, pn_bar=s.get("pn", 5.0), tfluid_k=300.0, height_m=HEIGHTS_M[str(n["h"])], index=lab[k])
+        pp.create_junction(net, pn_bar=s.get("pn", 5.0), tfluid_k=s.get("tn", 300.0), height_m=HEIGHTS_M[str(n["h"])], index=lab[k])
         meta["node"][k] = lab[k]
     for p in s["p0s"]:
-        meta["eg"].append(pp.create_ext_grid(net, lab[1], p_bar=p / 1e6, t_k=300.0, type="pt"))
+        meta["eg"].append(pp.create_ext_grid(net, lab[1], p_bar=p / 1e6, t_k=float(s.get("t0", 300.0)), type="pt"))
     counters = {}
 
     def nextlab(tbl):
@@ -59,7 +59,18 @@ def build(s, labels=None, var=None):
         return None
     aux = {"n": 0}
 
-    def mk(kind, a, b, N, zeta, sec, ha=None, hb=None):
+    FAC = {1: 1.0, 2: 0.5, 3: 0.75}
+    AMB = {1: 283.0, 2: 303.0}
+
+    def thermal_kw(N, th):
+        """heat-transfer coefficient giving the designed decay factor: exp(-alpha pi D L / (cp |m|)) = f (documented law)"""
+        if not th:
+            return {}
+        f = FAC[th["fd"]]
+        alpha = 0.0 if f == 1.0 else -math.log(f) * 4000.0 * abs(th["m"]) / (math.pi * DSTAR * N * DSTAR)
+        return {"u_w_per_m2k": alpha, "text_k": AMB[th["te"]]}
+
+    def mk(kind, a, b, N, zeta, sec, ha=None, hb=None, th=None):
         """returns (table, label of the element at the a-end, label at the b-end)"""
         if kind == "pipe":
             if var.get("split") and sec > 1:
@@ -76,20 +87,22 @@ def build(s, labels=None, var=None):
                         nxt = b
                     pl = pp.create_pipe_from_parameters(net, prev, nxt, length_km=N * DSTAR / 1000.0 / sec,
                                                         inner_diameter_mm=DSTAR * 1000.0, k_mm=K_NIKURADSE * 1000.0,
-                                                        loss_coefficient=zeta / sec, sections=1, index=nextlab("pipe"))
+                                                        loss_coefficient=zeta / sec, sections=1, index=nextlab("pipe"),
+                                                        **thermal_kw(N, th))
                     first = pl if first is None else first
                     last = pl
                     prev = nxt
                 return "pipe", first, last
             l = pp.create_pipe_from_parameters(net, a, b, length_km=N * DSTAR / 1000.0,
                                                inner_diameter_mm=DSTAR * 1000.0, k_mm=K_NIKURADSE * 1000.0,
-                                               loss_coefficient=zeta, sections=sec, index=nextlab("pipe"))
+                                               loss_coefficient=zeta, sections=sec, index=nextlab("pipe"),
+                                               **thermal_kw(N, th))
             return "pipe", l, l
         if kind == "valve":
             l = pp.create_valve(net, a, b, "ju", inner_diameter_mm=DSTAR * 1000.0, loss_coefficient=zeta, index=nextlab("valve"))
             return "valve", l, l
         if kind == "heat_exchanger":
-            l = pp.create_heat_exchanger(net, a, b, qext_w=0.0, inner_diameter_mm=DSTAR * 1000.0,
+            l = pp.create_heat_exchanger(net, a, b, qext_w=(4000.0 * th["m"] * th["dT"]) if th else 0.0, inner_diameter_mm=DSTAR * 1000.0,
                                          loss_coefficient=zeta, index=nextlab("heat_exchanger"))
             return "heat_exchanger", l, l
         raise ValueError(kind)
@@ -101,11 +114,13 @@ def build(s, labels=None, var=None):
         if k == 1:
             continue
         x, y = (k, n["par"]) if n["rev"] else (n["par"], k)
-        meta["branch"][k] = mk(n["kind"], lab[x], lab[y], n["N"], float(n["zeta"]), n["sec"], hm(x), hm(y))
+        th = {"fd": n.get("fd", 1), "te": n.get("te", 1), "dT": n.get("dT", 0), "m": s["flows"][k - 1]} if "flows" in s else None
+        meta["branch"][k] = mk(n["kind"], lab[x], lab[y], n["N"], float(n["zeta"]), n["sec"], hm(x), hm(y), th)
     for i, c in enumerate(s["chords"], start=1):
         z = c["zeta"][0] / c["zeta"][1]
         x, y = (c["b"], c["a"]) if c["rev"] else (c["a"], c["b"])
-        meta["chord"][i] = mk(c["kind"], lab[x], lab[y], c["N"], z, c["sec"], hm(x), hm(y))
+        th = {"fd": c.get("fd", 1), "te": c.get("te", 1), "dT": 0, "m": c["mc"]} if "flows" in s else None
+        meta["chord"][i] = mk(c["kind"], lab[x], lab[y], c["N"], z, c["sec"], hm(x), hm(y), th)
     for k, n in enumerate(nodes, start=1):
         d = n["d"]
         if d == 0:
